@@ -95,11 +95,22 @@ class NsRun:
         self.cov["edges_replayed"][key] = self.cov["edges_replayed"].get(key, 0) + st["Edges"] - st["Skipped"]
         self.cov["edges_conforming"][key] = self.cov["edges_conforming"].get(key, 0) + st["OK"]
         if target == "osfs":
-            if bad:
-                for b in bad[:5]:
-                    self.spec_mismatch.append(b.get("why", "") + " :: " +
-                                              "; ".join(brief(e) for e in (b.get("trace") or [])))
-            self.cov["kernel_edges_confirming_spec"] += st["OK"]
+            # a kernel step that differs from the canonical outcome may still be one of the admissible strict
+            # outcomes (directory batch order, the closed-handle corner): TLC decides with impl = "osfs"
+            traces = [b["trace"] for b in bad if b.get("trace")]
+            evs = [e for tr in traces for e in tr]
+            nun = 0
+            if evs:
+                v = vlib.validate_traces(self.sc, "osfs", evs, name="osfsval%d" % len(self.cov["tlc_runs"]))
+                un = set(v["unexplained"])
+                for tr in traces:
+                    for k, e in enumerate(tr):
+                        if (e["tr"], e["i"]) in un:
+                            nun += 1
+                            if len(self.spec_mismatch) < 5:
+                                self.spec_mismatch.append("; ".join(brief(x) for x in tr[:k + 1]))
+                            break
+            self.cov["kernel_edges_confirming_spec"] += st["OK"] + len(traces) - nun
             return
         traces = [b["trace"] for b in bad if b.get("trace")]
         for b in bad:
